@@ -52,7 +52,7 @@ def run(ctx):
     n = 0
     while ctx.time_left():
         n += 1
-        g = G(rng, hostile=rng.choice((0.0, 0.05, 0.2)), custom_tz=False, api_safe=True)
+        g = G(rng, hostile=rng.choice((0.0, 0.05, 0.2)), custom_tz=False, api_safe=True, api_custom_tz=(n % 3 == 0))
         ctx.check(("program", "zoneinfo" if n % 2 else "pytz", g.calendar(), rng.choice((None, rng.randrange(10 ** 9)))), "G4-programs")
 
 
@@ -147,7 +147,9 @@ def check_case(ctx, case):
         return
     if not check_lines(ctx, data, prov):
         return
-    icalendar.use_pytz() if prov == "pytz" else icalendar.use_zoneinfo()
+    # (no provider reset here: the bytes are parsed in the process state the build left behind, as a caller would)
+    if b"TZID=Verif/Custom" in data:
+        ctx.count("programs-with-custom-zone-values")
     try:
         back = icalendar.cal.Component.from_ical(data)
     except Exception as e:
